@@ -250,6 +250,7 @@ fn handlers_part(rep: &Arc<Reporter>, args: &Args) {
         for round in 0..rounds {
             let ctx = Arc::new(env::make_ctx(&dir, env::CtxOpts { tweak: Some(Box::new(|b| b.speedtest_enable(true))), ..Default::default() }));
             let nsess = r.range(1, 6) as usize;
+            let base_participants = ctx.shutdown.lock().unwrap().verif_participants();
             let finished = Arc::new(AtomicU64::new(0));
             let mut clients = vec![];
             let mut servers = vec![];
@@ -304,10 +305,22 @@ fn handlers_part(rep: &Arc<Reporter>, args: &Args) {
             }
             for _ in 0..r.below(30) { tokio::task::yield_now().await; }
             if r.chance(1, 2) { tokio::time::sleep(Duration::from_millis(r.below(6))).await; }
-            // registered participants at the time of submission = sessions whose handler already took its guard;
-            // give every handler a moment to start (registration happens at the top of each handler)
-            tokio::time::sleep(Duration::from_millis(3)).await;
+            // registered participants at the time of submission = sessions whose handler already took its notification
+            // handle and completion guard (top of each handler). A logical barrier, not a sleep: wait until the
+            // Shutdown object itself reports nsess more handles and guards than before the sessions were spawned.
             let sd = ctx.shutdown.clone();
+            let mut registered = false;
+            for _ in 0..5000 {
+                let (n, g) = sd.lock().unwrap().verif_participants();
+                if n >= base_participants.0 + nsess && g >= base_participants.1 + nsess { registered = true; break; }
+                tokio::time::sleep(Duration::from_millis(1)).await;
+            }
+            if !registered {
+                rep.inconclusive("handlers: not every session handler had registered with Shutdown within 5 s (machine too slow to tell)");
+                for (_, _, _, j) in clients { j.abort(); }
+                for s in servers { s.abort(); }
+                continue;
+            }
             sd.lock().unwrap().submit();
             let done = tokio::time::timeout(Duration::from_secs(10), tokio::task::spawn_blocking({ let sd = sd.clone(); move || { let rt = tokio::runtime::Builder::new_current_thread().build().unwrap(); rt.block_on(async { #[allow(clippy::await_holding_lock)] { let mut g = sd.lock().unwrap(); g.completion().await; } }) } })).await;
             rep.evals(1);
@@ -355,6 +368,7 @@ pub fn run(args: &Args) -> i32 {
     ));
     rep.assume("participants that register while completion() holds the Shutdown lock are outside the statement (recorded, not judged)");
     rep.assume("the executor polls one ready task per step; tokio's broadcast/mpsc channels only need wakers");
+    rep.assume("handlers part: shutdown is submitted only after Shutdown itself reports one notification handle and one completion guard per spawned session (hook Shutdown::verif_participants); a round where that does not happen within 5 s is inconclusive");
     executor_part(&rep, args);
     handlers_part(&rep, args);
     crate::props::c19_bin::run_bin(&rep, args);
